@@ -552,6 +552,28 @@ def run(ctx):
     r4.check(okgb, 'qmqpd:getbuf-rejects-len>=1000', 'qmail-qmqpd.c:getbuf', 'no "return 0" taken exactly for len >= 1000')
     r4.expect_min(12)
 
+    # ---- the commit comes after the last byte of the request: nothing is read from the client between qmail_close() and its verdict
+    from qv.lib import hits_after, loop_headers_containing
+    READS = ('substdio_get', 'substdio_bget', 'substdio_feed', 'getln', 'getln2')
+    WRITES = ('substdio_put', 'substdio_puts', 'substdio_flush', 'substdio_putflush', 'substdio_putsflush', 'substdio_bput', 'substdio_bputs')
+    for pname, unit, fname in (('qmail-smtpd', 'qmail-smtpd.c', 'smtp_data'), ('qmail-qmtpd', 'qmail-qmtpd.c', 'main'), ('qmail-qmqpd', 'qmail-qmqpd.c', 'main')):
+        p_ = db.program(pname)
+        f_ = p_.fn(fname, unit)
+        readers = {g_.name for g_ in p_.functions() if g_.unit == unit and g_.blocks and deep_calls(p_, g_, READS, depth=4)}
+        writers = {g_.name for g_ in p_.functions() if g_.unit == unit and g_.blocks and g_.name not in readers and deep_calls(p_, g_, WRITES, depth=4)}
+        closes_ = f_.calls('qmail_close')
+        if not closes_:
+            raise AnalysisBroken('%s: qmail_close() not found in %s' % (pname, fname))
+        late = []
+        for c_ in closes_:
+            # a loop around the commit is the per-message loop: passing its head starts the next request
+            late += hits_after(f_, c_, lambda y: y.k == 'call' and (y.callee in READS or y.callee in readers),
+                               lambda y: y.k == 'call' and (y.callee in WRITES or y.callee in writers),
+                               barrier_blocks=loop_headers_containing(f_, f_.pos[c_.id][0]))
+        r4.check(not late, '%s:request-read-completely-before-the-commit' % pname, closes_[0].where,
+                 'after qmail_close() and before its verdict is written the daemon still reads from the client (%s): a disconnect or a framing error there leaves a queued message without acknowledgement, and the client sends it again' %
+                 ', '.join(sorted({'%s() at line %d' % (y.callee, y.line) for y in late})))
+
     # ---------------------------------------------------------------- 6. disconnect
     r6 = rep.rule('C07.6-disconnect', 'R-GUARD', 'each daemon\'s read wrapper never returns <= 0 (EOF/error/timeout end the process) and reaches no qmail_close')
     for pname, unit in (('qmail-smtpd', 'qmail-smtpd.c'), ('qmail-qmtpd', 'qmail-qmtpd.c'), ('qmail-qmqpd', 'qmail-qmqpd.c')):
